@@ -16,21 +16,21 @@ int32_t nondet_i32(void); int64_t nondet_i64(void); uint32_t nondet_u32(void); _
 static int64_t vg_expect_lo, vg_expect_hi;   /* admissible offsets for the next seek are those of entries lo..hi of the chunk just read */
 static int64_t vg_offs[3]; static int vg_have_chunk;
 static int64_t vg_head_expect;
-static int vg_seeks, vg_reads, vg_wrong_seek, vg_io_error, vg_skipped;
+static int vg_seeks, vg_reads, vg_wrong_seek, vg_io_error, vg_skipped, vg_last_seek_ok;
 static int vg_lvl;
 static int64_t vg_t;
 static int vg_dummy_raw;
 
 int32_t jls_raw_chunk_seek(struct jls_raw_s * self, int64_t offset) {
     (void) self;
-    vg_seeks++;
-    if (!vg_have_chunk) { if (offset != vg_head_expect) vg_wrong_seek++; }
+    vg_seeks++; vg_last_seek_ok = 1;
+    if (!vg_have_chunk) { if (offset != vg_head_expect) { vg_wrong_seek++; vg_last_seek_ok = 0; } }
     else {
         _Bool ok = 0;
         if (vg_expect_lo <= 0 && 0 <= vg_expect_hi && offset == vg_offs[0]) ok = 1;
         if (vg_expect_lo <= 1 && 1 <= vg_expect_hi && offset == vg_offs[1]) ok = 1;
         if (vg_expect_lo <= 2 && 2 <= vg_expect_hi && offset == vg_offs[2]) ok = 1;
-        if (!ok) vg_skipped++;
+        if (!ok) { vg_skipped++; vg_last_seek_ok = 0; }
     }
     if (nondet_bool()) { vg_io_error++; return JLS_ERROR_IO; }
     return 0;
@@ -83,12 +83,12 @@ void h_ts_seek(void) {
     int64_t t;
     __CPROVER_assume(t > -(1ll << 60) && t < (1ll << 60));
     vg_t = t; vg_lvl = top; vg_head_expect = (top >= 0) ? heads[top] : 0; vg_have_chunk = 0;
-    vg_seeks = 0; vg_reads = 0; vg_wrong_seek = 0; vg_io_error = 0; vg_skipped = 0;
+    vg_seeks = 0; vg_reads = 0; vg_wrong_seek = 0; vg_io_error = 0; vg_skipped = 0; vg_last_seek_ok = 0;
     int32_t rc = jls_core_ts_seek(c, VG_SIG, 0, VG_TRACK, t);
     if (top < 0) { __CPROVER_assert(rc != 0 && vg_seeks == 0, "a track without any chunk is reported as not found"); }
     __CPROVER_assert(vg_wrong_seek == 0, "the descent starts at the head of the highest level on disk");
     __CPROVER_assert(vg_skipped == 0, "C11: at every level the chosen entry neither skips an item with timestamp >= t nor starts more than one item before t");
-    __CPROVER_assert(rc != 0 || (vg_reads == top && vg_seeks == top + 1 && vg_io_error == 0), "success = one index chunk per level, no error swallowed");
+    __CPROVER_assert(rc != 0 || (vg_lvl == 0 && vg_seeks >= 1 && vg_last_seek_ok && vg_io_error == 0), "success = descended to level 0, positioned at an admissible entry, no error swallowed");
     __CPROVER_assert(rc == 0 || top < 0 || vg_io_error != 0, "the lookup fails only when a seek or read fails");
     VG_REACH(ts_seek_returns);
     if (rc == 0 && top == 3) { VG_REACH(ts_seek_three_levels); }
